@@ -139,6 +139,27 @@ def run(ctx, which):
                         tr.append(dict(op='yield', kind='E' if fld.lr_is_eflr else 'I', type=fld.lr_type,
                                        ranges=G.project(k, data, recs[k - 1]['len'])))
                     tr.append(dict(op='eof'))
+                    # a sequential read is a sequential read whatever the reader did before: read again on the SAME reader, after a
+                    # complete pass, after a pass abandoned part way, or after a walk over the visible records
+                    if ci % 3 == 0:
+                        variant = (ci // 3) % 3
+                        if variant == 1:
+                            g_ = fr.iter_logical_records()
+                            for _n, _fld in zip(range(1 + (ci // 9) % 2), g_):
+                                pass
+                            del g_
+                        elif variant == 2:
+                            for _vr in fr.iter_visible_records():
+                                pass
+                        tr.append(dict(op='restart', after=['a complete pass', 'an abandoned pass', 'a walk over the visible records'][variant]))
+                        i = 0
+                        for fld in fr.iter_logical_records():
+                            i += 1
+                            k = min(i, len(recs))
+                            data = bytes(fld.logical_data.bytes)
+                            tr.append(dict(op='yield', kind='E' if fld.lr_is_eflr else 'I', type=fld.lr_type,
+                                           ranges=G.project(k, data, recs[k - 1]['len'])))
+                        tr.append(dict(op='eof'))
             else:
                 with Index.LogicalRecordIndex(f) as ix:
                     for e in ix.lr_pos_desc:
